@@ -26,6 +26,7 @@ Verdict(i) ==
   \cup B("AdvertisedVipCurrentProxy", AdvertisedVipCurrentProxy, pre, post, first)
   \cup B("AdvertisedVipCurrentOwn", AdvertisedVipCurrentOwn, pre, post, first)
   \cup B("AdvertisedVipCurrentGateway", AdvertisedVipCurrentGateway, pre, post, first)
+  \cup B("AdvertisedVipStaleGatewayLink", AdvertisedVipStaleGatewayLink, pre, post, first)
   \cup (IF CascadeComplete(pre, post) THEN {} ELSE {"CascadeComplete"})
 TInit == l = 1
 TNext == /\ l <= Len(Trace)
